@@ -203,7 +203,9 @@ class Build:
         if k is not None:
             kw["vocabs"] = self.maps[k]
         if seed is not None:
-            kw["seed"] = seed
+            # a seed is a seed whatever integer type carries it: every third seeded node gets a NumPy integer
+            self.n_seeded = getattr(self, "n_seeded", 0) + 1
+            kw["seed"] = (np.int64(seed) if self.n_seeded % 3 == 1 else (np.int32(seed) if self.n_seeded % 3 == 2 else seed))
         return kw
 
     def node(self, t, gov):
